@@ -82,4 +82,6 @@ func TestC15(t *testing.T) {
 		}
 		fr.cleanup()
 	}
+	c15Concurrent(run, r)
+	c15DirRemoved(run, r)
 }
